@@ -677,8 +677,10 @@ class StorageView:
     def __len__(self):
         return len(self.storage)
 
-    def __getitem__(self, key: int) -> DataFieldBase:
+    def __getitem__(self, key: int | slice) -> DataFieldBase | list[DataFieldBase]:
         """Return field at given index or a list of fields for a slice."""
+        if isinstance(key, slice):
+            return [fields[self.field_index] for fields in self.storage[key]]  # type: ignore
         return self.storage[key][self.field_index]  # type: ignore
 
     def __iter__(self) -> Iterator[DataFieldBase]:
